@@ -18,12 +18,12 @@ func verifRange(n int) []int {
 
 func verifC01Shape() (cc, kind, ne int, full bool) {
 	full = verifBound("C01.full") == 1
-	if full {
-		cc = verifCase("cc", 0, 15)
+	kind = verifCase("profile", 0, 3)
+	if full && kind == 0 {
+		cc = verifCase("cc", 0, 15) // every CSRC count on the extension-less shapes
 	} else {
 		cc = verifPick("cc", verifCCq)
 	}
-	kind = verifCase("profile", 0, 3)
 	switch kind {
 	case 0:
 		ne = 0
@@ -40,7 +40,7 @@ func VerifC01Packet() {
 	var p Packet
 	verifFixedFields(&p.Header, cc)
 	m := verifSetExtensions(&p.Header, kind, ne, full && ne <= 1)
-	if full {
+	if full && kind == 0 {
 		p.Payload = verifBytes("payload", verifCase("plen", 0, verifBound("C01.maxpayload")))
 	} else {
 		p.Payload = verifBytes("payload", verifPick("plen", verifPlenq))
